@@ -964,6 +964,7 @@ def run(chk: Check) -> None:
     # ------------------------------------------------ EnvironBuilder -> Request, end to end
     _e2e(chk, quick, corpus, add)
     _raw_query(chk, quick, corpus)
+    _second_build(chk, quick, corpus)
 
     # ------------------------------------------------ model side
     exe = chk.build_modelrun("C15")
@@ -1318,6 +1319,84 @@ def _raw_query(chk, quick, corpus) -> None:
             chk.count("e2e:raw-query:" + how)
             chk.case(("rawq", how, text, path), nontrivial=True,
                      sample={"op": "raw query text", "given": how, "query_text": text, "impl": got["url"]} if len(text) > 8 else None)
+
+
+def _second_build(chk, quick, corpus) -> None:
+    """each build is a function of the builder's state at that moment: build, change the builder (the live args MultiDict in
+    place, or one of the attributes), build again, and the request must read back the CURRENT state"""
+    from werkzeug.datastructures import MultiDict
+    from werkzeug.test import EnvironBuilder
+    from werkzeug.wrappers import Request
+    rng = chk.rng
+    words = ["a", "b", "k", "x1", "é", "ü", "東", "☃", "a b", "1+1", "&", "=", "", "v%41", "\U0001f600"]
+    for _ in range(900 if quick else 15000):
+        items = [(rng.choice(words[:9]) or "k", rng.choice(words)) for _ in range(rng.randint(0, 3))]
+        path, base = rng.choice(["/p", "/", "/ü/☃"]), rng.choice(["http://example.org/app/", "http://localhost/", "https://h:8443/r/"])
+        b = EnvironBuilder(path=path, base_url=base, query_string=MultiDict(items))
+        steps = []
+        try:
+            for nbuild in range(rng.randint(1, 2)):
+                r0 = (b.get_request() if rng.random() < 0.5 else Request(b.get_environ()))
+                _ = (r0.args, r0.url)
+                op = rng.choice(["add", "add", "setlist", "pop", "clear", "setitem", "update", "query_string=", "args=", "path=", "base_url=",
+                                 "host=", "script_root="])
+                k, v = rng.choice(words[:9]) or "k", rng.choice(words)
+                if op in ("add", "setlist", "pop", "clear", "setitem", "update") and b._query_string is not None:
+                    op = "args="
+                if op == "add":
+                    b.args.add(k, v)
+                elif op == "setlist":
+                    b.args.setlist(k, [v, v + "2"])
+                elif op == "pop":
+                    b.args.pop(k, None) if k in b.args or not b.args else b.args.pop(next(iter(b.args)))
+                elif op == "clear":
+                    b.args.clear()
+                elif op == "setitem":
+                    b.args[k] = v
+                elif op == "update":
+                    b.args.update({k: v})
+                elif op == "query_string=":
+                    b.query_string = f"{k}={v.replace('&', '').replace('=', '').replace('+', '').replace('%', '')}"
+                elif op == "args=":
+                    b.args = MultiDict([(k, v), ("z", "9")])
+                elif op == "path=":
+                    path = rng.choice(["/new", "/n/é", "/☃"])
+                    b.path = path
+                elif op == "base_url=":
+                    base = rng.choice(["https://other.example:8443/r2/", "http://h2/"])
+                    b.base_url = base
+                elif op == "host=":
+                    b.host = rng.choice(["other.example:81", "h3"])
+                elif op == "script_root=":
+                    b.script_root = rng.choice(["/sr", "", "/ü"])
+                steps.append(op)
+            # the builder's current state, read without going through its query_string property
+            if b._query_string is not None:
+                want_items = up.parse_qsl(b._query_string, keep_blank_values=True)
+                want_q = b._query_string
+            else:
+                want_items = list(b.args.items(multi=True))
+                want_q = up.urlencode(want_items, safe="!$'()*,/:;?@")
+            order = list(dict.fromkeys(k_ for k_, _ in want_items))
+            want_items = [(k_, v_) for kk in order for k_, v_ in want_items if k_ == kk]
+            want_host = b.host[:-3] if (b.url_scheme == "http" and b.host.endswith(":80")) else b.host
+            r = Request(b.get_environ())
+            got = dict(args=list(r.args.items(multi=True)), query_string=r.query_string.decode("utf-8", "replace"), path=r.path,
+                       root_path=r.root_path, host=r.host, scheme=r.scheme)
+            want = dict(args=want_items, query_string=want_q, path=up.unquote(b.path), root_path=up.unquote(b.script_root), host=want_host,
+                        scheme=b.url_scheme)
+        except Exception as e:  # noqa: BLE001
+            chk.fail("builder-second-build-raises", f"{type(e).__name__}: {e}", {"op": "second-build", "items": items, "steps": steps})
+            continue
+        inp = {"op": "second-build", "path": path, "base_url": base, "first_items": items, "then": steps}
+        if got != want:
+            diff = {k_: (want[k_], got[k_]) for k_ in want if want[k_] != got[k_]}
+            chk.fail("builder-second-build-stale", f"after {steps} the next build does not show the builder's current state "
+                     f"(expected, read): {diff!r}", inp)
+        elif not r.full_path.endswith("?" + r.query_string.decode("utf-8", "replace")) or (want_q and "?" not in r.url) or (not want_q and r.url.endswith("?")):
+            chk.fail("builder-second-build-stale", f"full_path {r.full_path!r} / url {r.url!r} do not carry the current query {want_q!r}", inp)
+        chk.count("e2e:second-build:" + (steps[-1] if steps else "none"))
+        chk.case(("second", path, base, tuple(items), tuple(steps)), nontrivial=True)
 
 
 def replay(rep) -> int:
